@@ -8,9 +8,11 @@ import artgen
 
 PROPS = {
     'C01': ['Properties/Properties_C01.v', 'Properties/Properties_C01b.v', 'Properties/Properties_C01g.v'],
-    'C02': ['Properties/Properties_C02.v', 'Properties/Properties_C02g.v'],
-    'C10': ['Properties/Properties_C10.v', 'Properties/Properties_C10g.v', 'Properties/Properties_C10h.v'],
+    'C02': ['Properties/Properties_C02.v', 'Properties/Properties_C02b.v', 'Properties/Properties_C02g.v'],
+    'C10': ['Properties/Properties_C10.v', 'Properties/Properties_C10b.v', 'Properties/Properties_C10g.v', 'Properties/Properties_C10h.v'],
 }
+# translator targets (tools/gen.py) whose output the property files above are bridged to
+GEN_OF = {'C01': ['prefix'], 'C02': ['compare'], 'C10': ['sizes', 'prefix']}
 OPS_OF = {'C01': 'NIRGEC', 'C02': 'SFQ', 'C10': 'D'}
 CLASSES = ['db', 'mutex', 'olc']
 KINDS = ['u64', 'bytes']
@@ -132,7 +134,9 @@ def check(pid, tier, replay=None):
     have_props = all(os.path.exists(os.path.join(COQ, f)) for f in PROPS[pid])
     if have_props:
         # C01: the key-prefix word arithmetic is regenerated from art_internal_impl.hpp and bridged to the model's list functions
-        proof_stage(res, ['prefix'] if pid == 'C01' else [], PROPS[pid], pid)
+        # C02: detail::compare / basic_art_key::cmp regenerated from art_internal.hpp and bridged to lex_compare
+        # C10: the node-size constants folded by clang and compared with the model's cap / min_size / prefix_capacity
+        proof_stage(res, GEN_OF[pid], PROPS[pid], pid)
     else:
         res.proof_ok = True
         res.broken = []
